@@ -188,8 +188,12 @@ class ConditionIdentifier(ConditionItem):
         try:
             detection = detections[self.identifier]
         except KeyError:
+            # The detections taken over from a filter carry a prefix that is drawn at random: the
+            # error names the detection as the author of the filter has written it.
+            written = re.sub("^_filt_[a-z]{10}_", "", self.identifier)
             raise SigmaConditionError(
-                f"Detection '{ self.identifier }' not defined in detections",
+                f"Detection '{ written }' not defined in detections"
+                + (" of the applied filter" if written != self.identifier else ""),
                 source=source,
             )
         return detection.postprocess(detections, self, source)
